@@ -224,7 +224,10 @@ impl Series1 {
                 let x0 = self.x[j];
                 let x1 = self.x[j + 1];
                 let m = (v1 - v0) / (x1 - x0);
-                if !m.is_finite() {
+                // A flat segment lying on the level (m == 0) has no isolated crossing of its own:
+                // 0/0 would put a NaN into the result. The ends of such a plateau are reported
+                // by the neighboring segments.
+                if !m.is_finite() || m == 0.0 {
                     continue;
                 }
                 let x = x0 + (y_equals - v0) / m;
